@@ -52,7 +52,7 @@ TraceSkip ==
 TraceNext == TraceReset \/ TraceTxn \/ TraceSkip
 TraceSpec == TraceInit /\ [][TraceNext]_vars
 
-IsTxn == ev.ev = "Txn"
+IsTxn == ev.ev = "Txn" /\ ~IsKnown(ev)
 Delta(a) == PairOf(ev.delta, a, 0)
 Accounts == {ev.delta[i].a : i \in 1..Len(ev.delta)}
 
